@@ -50,6 +50,9 @@ fn collect_urls(n: &markdown_it::Node, out: &mut Vec<String>) {
 /// every destination the parser emits is a word of (safe | %XX)* over the shipped safe set
 fn documents(n: usize, rng: &mut Rng, rep: &mut Report) {
     let md = crate::cfg::Cfg::cmark_only().build();
+    // the same parser with the other documented mode of the encoder installed as the destination normaliser
+    let mut md_nokeep = crate::cfg::Cfg::cmark_only().build();
+    md_nokeep.normalize_link = |s| encode(s, AsciiSet::from(crate::corr::url::DEFAULT_SAFE), false);
     let (_, bits) = crate::corr::url::set_bits(crate::corr::url::DEFAULT_SAFE.as_bytes(), true);
     let specials = ['%', '^', '`', '{', '|', '}', '!', '#', '$', '&', '\'', '*', '+', '/', '=', '?', '_', '~', '-', '.'];
     for _ in 0..n {
@@ -70,6 +73,30 @@ fn documents(n: usize, rng: &mut Rng, rep: &mut Report) {
         for u in urls {
             if !in_language(u.as_bytes(), bits) {
                 rep.violation("destination-alphabet", input.clone(), format!("emitted destination {:?} is not made of safe characters and well-formed %XX only", u));
+            }
+        }
+        // destinations written in <..> without escapes or references reach the encoder unchanged: the href is exactly
+        // encode(raw) (keep mode: decoding unchanged, idempotent), and in the non-keeping mode it decodes to the raw bytes
+        let plain = raw.replace(['\\', '&', '\t'], "");
+        let plain = plain.trim().to_string();
+        if plain.is_empty() { continue; }
+        let form = rng.below(4);
+        let d2 = match form { 0 => format!("[x](<{}>)", plain), 1 => format!("[r]: <{}>\n\n[r]", plain), 2 => format!("![x][r]\n\n[r]: <{}> 't'", plain), _ => format!("[r]: <{}>\n\n[a][r] [r][] ![i][r]", plain) };
+        let input2 = format!("doc={}", hex(d2.as_bytes()));
+        for (mode, m) in [("keep", &md), ("nokeep", &md_nokeep)] {
+            let tree = match guarded(|| m.parse(&d2)) { Ok(t) => t, Err(_) => continue };
+            let mut urls = vec![];
+            collect_urls(&tree, &mut urls);
+            rep.stats.count(&format!("pipeline_{}_{}", mode, if urls.is_empty() { "no_link" } else { "link" }));
+            for u in urls {
+                let ub = u.as_bytes();
+                if mode == "keep" {
+                    if pct_decode(ub) != pct_decode(plain.as_bytes()) || encode(&u, AsciiSet::from(crate::corr::url::DEFAULT_SAFE), true) != u {
+                        rep.violation("destination-keep", input2.clone(), format!("destination {:?} for raw {:?}: existing escapes not preserved or not a fixed point", u, plain));
+                    }
+                } else if pct_decode(ub) != plain.as_bytes() {
+                    rep.violation("destination-roundtrip", input2.clone(), format!("non-keeping normaliser: destination {:?} decodes to {} but the raw destination is {}", u, hex(&pct_decode(ub)), hex(plain.as_bytes())));
+                }
             }
         }
     }
